@@ -177,7 +177,11 @@ pub fn gen_header_value(r: &mut Rng) -> Vec<u8> {
         match r.below(12) {
             0..=7 => v.push(0x21 + r.below(0x7e - 0x21 + 1) as u8),
             8 => v.push(0x80 + r.below(0x80) as u8),
-            9 => v.push(b','),
+            9 => v.push(if r.chance(1, 4) {
+                b'\t'
+            } else {
+                b','
+            }),
             _ => {
                 if !v.is_empty() && *v.last().unwrap() != b' ' {
                     v.push(b' ');
